@@ -240,3 +240,60 @@ pub proof fn lemma_merge_is_range(l: Seq<LItem>, r: Seq<RecV>, base: St, ls: Map
         }
     }
 }
+
+// ---- bounds of BTreeMap::range in general form, and their agreement with [lo, hi) for the pair (Included / Unbounded, Excluded / Unbounded)
+pub open spec fn above(k: Seq<u8>, lo: core::ops::Bound<Seq<u8>>) -> bool {
+    match lo { core::ops::Bound::Included(l) => lex_le(l, k), core::ops::Bound::Excluded(l) => lex_lt(l, k), core::ops::Bound::Unbounded => true }
+}
+pub open spec fn below(k: Seq<u8>, hi: core::ops::Bound<Seq<u8>>) -> bool {
+    match hi { core::ops::Bound::Included(h) => lex_le(k, h), core::ops::Bound::Excluded(h) => lex_lt(k, h), core::ops::Bound::Unbounded => true }
+}
+pub open spec fn bview(b: core::ops::Bound<Vec<u8>>) -> core::ops::Bound<Seq<u8>> {
+    match b { core::ops::Bound::Included(v) => core::ops::Bound::Included(v@), core::ops::Bound::Excluded(v) => core::ops::Bound::Excluded(v@), core::ops::Bound::Unbounded => core::ops::Bound::Unbounded }
+}
+// the entries of ls with key within (lo, hi), each once, ascending
+pub open spec fn is_brange_of(l: Seq<LItem>, ls: Map<Vec<u8>, Delta>, lo: core::ops::Bound<Seq<u8>>, hi: core::ops::Bound<Seq<u8>>) -> bool {
+    &&& forall|i: int| 0 <= i < l.len() ==> has_key(ls, (#[trigger] l[i]).0) && dview(ls[the_key(ls, l[i].0)]) == l[i].1 && above(l[i].0, lo) && below(l[i].0, hi)
+    &&& forall|k: Seq<u8>| has_key(ls, k) && above(k, lo) && below(k, hi) ==> #[trigger] lhas(l, k)
+    &&& lsorted(l, Order::Ascending)
+}
+pub open spec fn lo_of(lo: Option<Seq<u8>>) -> core::ops::Bound<Seq<u8>> { match lo { Some(x) => core::ops::Bound::Included(x), None => core::ops::Bound::Unbounded } }
+pub open spec fn hi_of(hi: Option<Seq<u8>>) -> core::ops::Bound<Seq<u8>> { match hi { Some(x) => core::ops::Bound::Excluded(x), None => core::ops::Bound::Unbounded } }
+pub proof fn lemma_brange_is_lrange(l: Seq<LItem>, ls: Map<Vec<u8>, Delta>, lo: Option<Seq<u8>>, hi: Option<Seq<u8>>)
+    requires is_brange_of(l, ls, lo_of(lo), hi_of(hi))
+    ensures is_lrange_of(l, ls, lo, hi, Order::Ascending)
+{
+    assert forall|k: Seq<u8>| has_key(ls, k) && in_range(k, lo, hi) implies #[trigger] lhas(l, k) by {
+        assert(above(k, lo_of(lo)) && below(k, hi_of(hi)));
+    }
+}
+// the same entries in the opposite direction
+pub proof fn lemma_lrange_reverse(l: Seq<LItem>, ls: Map<Vec<u8>, Delta>, lo: Option<Seq<u8>>, hi: Option<Seq<u8>>)
+    requires is_lrange_of(l, ls, lo, hi, Order::Ascending)
+    ensures is_lrange_of(l.reverse(), ls, lo, hi, Order::Descending)
+{
+    let r = l.reverse();
+    assert forall|i: int| 0 <= i < r.len() implies has_key(ls, (#[trigger] r[i]).0) && dview(ls[the_key(ls, r[i].0)]) == r[i].1 && in_range(r[i].0, lo, hi) by {
+        assert(r[i] == l[l.len() - 1 - i]);
+    }
+    assert forall|k: Seq<u8>| has_key(ls, k) && in_range(k, lo, hi) implies #[trigger] lhas(r, k) by {
+        assert(lhas(l, k));
+        let i = choose|i: int| 0 <= i < l.len() && l[i].0 == k;
+        assert(r[l.len() - 1 - i].0 == k);
+    }
+    assert forall|i: int, j: int| 0 <= i < j < r.len() implies ord_lt(#[trigger] r[i].0, #[trigger] r[j].0, Order::Descending) by {
+        assert(r[i] == l[l.len() - 1 - i]); assert(r[j] == l[l.len() - 1 - j]);
+        assert(ord_lt(l[l.len() - 1 - j].0, l[l.len() - 1 - i].0, Order::Ascending));
+    }
+}
+// inverted bounds: nothing lies in [lo, hi) when hi < lo
+pub proof fn lemma_inverted_empty(ls: Map<Vec<u8>, Delta>, lo: Seq<u8>, hi: Seq<u8>, order: Order)
+    requires lex_lt(hi, lo)
+    ensures is_lrange_of(Seq::<LItem>::empty(), ls, Some(lo), Some(hi), order)
+{
+    assert forall|k: Seq<u8>| has_key(ls, k) && in_range(k, Some(lo), Some(hi)) implies #[trigger] lhas(Seq::<LItem>::empty(), k) by {
+        // lo <= k < hi < lo  is impossible
+        if lo != k { lemma_lex_trans(lo, k, hi); }
+        lemma_lex_asym(hi, lo);
+    }
+}
